@@ -33,6 +33,7 @@ import (
 	tmtypes "github.com/cometbft/cometbft/types"
 	cryptocodec "github.com/cosmos/cosmos-sdk/crypto/codec"
 	sdk "github.com/cosmos/cosmos-sdk/types"
+	stakingtypes "github.com/cosmos/cosmos-sdk/x/staking/types"
 	"github.com/ethereum/go-ethereum/common"
 
 	exocoreapp "github.com/ExocoreNetwork/exocore/app"
@@ -163,6 +164,7 @@ type c06H struct {
 	avsAddr string
 	pool    []keytypes.WrappedConsKey
 	nonce   uint64
+	operators []sdk.AccAddress // the operators the operations of the current family address (genesis ones, or the large set)
 	epochID string
 	ended   bool // set by beginNext
 	dead    bool // BeginBlock panicked: the history stops here
@@ -427,7 +429,7 @@ func (h *c06H) atomic(f func(ctx sdk.Context) error) (res string) {
 	return "ok"
 }
 
-func (h *c06H) selfStaker(i int) []byte { return h.env.Operators[i].Bytes() }
+func (h *c06H) selfStaker(i int) []byte { return h.operators[i].Bytes() }
 
 func (h *c06H) opDeposit(staker []byte, amt int64) string {
 	return h.atomic(func(ctx sdk.Context) error {
@@ -443,7 +445,7 @@ func (h *c06H) opDelegate(staker []byte, i int, amt int64) string {
 	return h.atomic(func(ctx sdk.Context) error {
 		return h.app.DelegationKeeper.DelegateTo(ctx, &delegationtypes.DelegationOrUndelegationParams{
 			ClientChainID: h.env.LzID, LzNonce: h.nonce, AssetsAddress: common.HexToAddress(h.env.AssetAddr).Bytes(),
-			StakerAddress: staker, OperatorAddress: h.env.Operators[i], OpAmount: sdkmath.NewInt(amt),
+			StakerAddress: staker, OperatorAddress: h.operators[i], OpAmount: sdkmath.NewInt(amt),
 			TxHash: common.BytesToHash(seedBytes("c06tx", int(h.nonce))),
 		})
 	})
@@ -454,7 +456,7 @@ func (h *c06H) opUndelegate(staker []byte, i int, amt int64) string {
 	return h.atomic(func(ctx sdk.Context) error {
 		return h.app.DelegationKeeper.UndelegateFrom(ctx, &delegationtypes.DelegationOrUndelegationParams{
 			ClientChainID: h.env.LzID, LzNonce: h.nonce, AssetsAddress: common.HexToAddress(h.env.AssetAddr).Bytes(),
-			StakerAddress: staker, OperatorAddress: h.env.Operators[i], OpAmount: sdkmath.NewInt(amt),
+			StakerAddress: staker, OperatorAddress: h.operators[i], OpAmount: sdkmath.NewInt(amt),
 			TxHash: common.BytesToHash(seedBytes("c06tx", int(h.nonce))),
 		})
 	})
@@ -462,28 +464,28 @@ func (h *c06H) opUndelegate(staker []byte, i int, amt int64) string {
 
 func (h *c06H) opSetKey(i, j int) string {
 	return h.atomic(func(ctx sdk.Context) error {
-		if !h.app.OperatorKeeper.IsOptedIn(ctx, h.env.Operators[i].String(), h.avsAddr) {
+		if !h.app.OperatorKeeper.IsOptedIn(ctx, h.operators[i].String(), h.avsAddr) {
 			return fmt.Errorf("not opted in") // msg server check
 		}
-		return h.app.OperatorKeeper.SetOperatorConsKeyForChainID(ctx, h.env.Operators[i], h.chainID, h.pool[j])
+		return h.app.OperatorKeeper.SetOperatorConsKeyForChainID(ctx, h.operators[i], h.chainID, h.pool[j])
 	})
 }
 
 func (h *c06H) opOptOut(i int) string {
 	return h.atomic(func(ctx sdk.Context) error {
-		return h.app.OperatorKeeper.OptOut(ctx, h.env.Operators[i], h.avsAddr)
+		return h.app.OperatorKeeper.OptOut(ctx, h.operators[i], h.avsAddr)
 	})
 }
 
 func (h *c06H) opOptIn(i, j int) string {
 	return h.atomic(func(ctx sdk.Context) error {
-		return h.app.OperatorKeeper.OptInWithConsKey(ctx, h.env.Operators[i], h.avsAddr, h.pool[j])
+		return h.app.OperatorKeeper.OptInWithConsKey(ctx, h.operators[i], h.avsAddr, h.pool[j])
 	})
 }
 
 func (h *c06H) opJail(i int, jail bool) string {
 	return h.atomic(func(ctx sdk.Context) error {
-		found, wk, err := h.app.OperatorKeeper.GetOperatorConsKeyForChainID(ctx, h.env.Operators[i], h.chainID)
+		found, wk, err := h.app.OperatorKeeper.GetOperatorConsKeyForChainID(ctx, h.operators[i], h.chainID)
 		if err != nil || !found || wk == nil {
 			return fmt.Errorf("no key")
 		}
@@ -511,11 +513,11 @@ func (h *c06H) opSetMax(m uint32) string {
 // direct write of the USD value record of an opted-in operator (only meaningful after the epoch hook ran)
 func (h *c06H) opSetUSD(i int, self, total, active sdkmath.LegacyDec) string {
 	return h.atomic(func(ctx sdk.Context) error {
-		if !h.app.OperatorKeeper.IsOptedIn(ctx, h.env.Operators[i].String(), h.avsAddr) {
+		if !h.app.OperatorKeeper.IsOptedIn(ctx, h.operators[i].String(), h.avsAddr) {
 			return fmt.Errorf("not opted in")
 		}
 		return h.app.OperatorKeeper.SetAllOperatorUSDValues(ctx, []operatortypes.OperatorUSDValue{{
-			Key:           string(assetstypes.GetJoinedStoreKey(h.avsAddr, h.env.Operators[i].String())),
+			Key:           string(assetstypes.GetJoinedStoreKey(h.avsAddr, h.operators[i].String())),
 			OptedUSDValue: operatortypes.OperatorOptedUSDValue{SelfUSDValue: self, TotalUSDValue: total, ActiveUSDValue: active},
 		}})
 	})
@@ -528,9 +530,9 @@ var c06USDPool = []string{
 
 // an operator that can opt in again (not opted in, no key removal pending), or -1
 func (h *c06H) canOptIn() int {
-	for _, c := range h.rng.Perm(len(h.env.Operators)) {
-		if !h.app.OperatorKeeper.IsOptedIn(h.ctx, h.env.Operators[c].String(), h.avsAddr) &&
-			!h.app.OperatorKeeper.IsOperatorRemovingKeyFromChainID(h.ctx, h.env.Operators[c], h.chainID) {
+	for _, c := range h.rng.Perm(len(h.operators)) {
+		if !h.app.OperatorKeeper.IsOptedIn(h.ctx, h.operators[c].String(), h.avsAddr) &&
+			!h.app.OperatorKeeper.IsOperatorRemovingKeyFromChainID(h.ctx, h.operators[c], h.chainID) {
 			return c
 		}
 	}
@@ -550,9 +552,12 @@ func (h *c06H) freeKey() (int, keytypes.WrappedConsKey) {
 
 func (h *c06H) randOp(epochEnd bool) string {
 	r := h.rng
-	n := len(h.env.Operators)
+	n := len(h.operators)
 	i := r.Intn(n)
 	x := r.Intn(100)
+	if !epochEnd {
+		x = 48 + r.Intn(52) // no USD writes outside epoch-end blocks: spread over the other kinds as weighted below
+	}
 	// opt in again after a completed opt-out: taken half of the times it is possible, because the window is short
 	if c := h.canOptIn(); c >= 0 && r.Intn(2) == 0 {
 		j, _ := h.freeKey()
@@ -570,7 +575,7 @@ func (h *c06H) randOp(epochEnd bool) string {
 		}
 		return fmt.Sprintf("optin-again(%d,%d)=%s", c, j, res)
 	}
-	if epochEnd && x < 55 {
+	if epochEnd && x < 45 {
 		// direct USD write
 		tot := sdkmath.LegacyMustNewDecFromStr(c06USDPool[r.Intn(len(c06USDPool))])
 		act := tot
@@ -606,8 +611,8 @@ func (h *c06H) randOp(epochEnd bool) string {
 		// prefer an operator that can opt in again (opt-out completed), when there is one
 		if r.Intn(4) > 0 {
 			for _, c := range r.Perm(n) {
-				if !h.app.OperatorKeeper.IsOptedIn(h.ctx, h.env.Operators[c].String(), h.avsAddr) &&
-					!h.app.OperatorKeeper.IsOperatorRemovingKeyFromChainID(h.ctx, h.env.Operators[c], h.chainID) {
+				if !h.app.OperatorKeeper.IsOptedIn(h.ctx, h.operators[c].String(), h.avsAddr) &&
+					!h.app.OperatorKeeper.IsOperatorRemovingKeyFromChainID(h.ctx, h.operators[c], h.chainID) {
 					i = c
 					break
 				}
@@ -780,6 +785,117 @@ func (h *c06H) emit(mode string, steps []c06Step, tags []string) {
 	h.w.Add(c.coq(), c)
 }
 
+// ---- the large-set family: 13..20 operators, big groups of equal power, MaxValidators inside the tie group --------
+// Go's sort.Slice switches from insertion sort to pdqsort above 12 elements; a comparator that is not a consistent
+// strict order only shows with more elements than that, equal powers and the cut inside the group of equals.
+
+// registerExtra registers operator number idx through the real entry points (operator info, deposit, delegation by
+// its own staker, association = self delegation, opt-in with a consensus key) with `usd` whole USD of stake.
+func (h *c06H) registerExtra(idx int, usd int64) (sdk.AccAddress, error) {
+	_, ea := DetEthKey("c06big", idx)
+	op := sdk.AccAddress(ea.Bytes())
+	ctx := h.ctx
+	if err := h.app.OperatorKeeper.SetOperatorInfo(ctx, op.String(), &operatortypes.OperatorInfo{
+		EarningsAddr: op.String(), OperatorMetaInfo: fmt.Sprintf("big%d", idx),
+		Commission: stakingtypes.NewCommission(sdk.ZeroDec(), sdk.ZeroDec(), sdk.ZeroDec()),
+	}); err != nil {
+		return nil, err
+	}
+	asset := common.HexToAddress(h.env.AssetAddr).Bytes()
+	amt := sdkmath.NewIntWithDecimal(usd, 6)
+	if err := h.app.AssetsKeeper.PerformDepositOrWithdraw(ctx, &assetskeeper.DepositWithdrawParams{
+		ClientChainLzID: h.env.LzID, Action: assetstypes.DepositLST, StakerAddress: op.Bytes(), AssetsAddress: asset, OpAmount: amt,
+	}); err != nil {
+		return nil, err
+	}
+	h.nonce++
+	if err := h.app.DelegationKeeper.DelegateTo(ctx, &delegationtypes.DelegationOrUndelegationParams{
+		ClientChainID: h.env.LzID, LzNonce: h.nonce, AssetsAddress: asset, StakerAddress: op.Bytes(), OperatorAddress: op,
+		OpAmount: amt, TxHash: common.BytesToHash(seedBytes("c06tx", int(h.nonce))),
+	}); err != nil {
+		return nil, err
+	}
+	if err := h.app.DelegationKeeper.AssociateOperatorWithStaker(ctx, h.env.LzID, op, op.Bytes()); err != nil {
+		return nil, err
+	}
+	_, key := DetConsKey("c06bigkey", idx)
+	if err := h.app.OperatorKeeper.OptInWithConsKey(ctx, op, h.avsAddr, key); err != nil {
+		return nil, err
+	}
+	return op, nil
+}
+
+// one large-set history: `n` operators in total; every epoch-end block writes a power assignment with one big group
+// of equal power and puts MaxValidators inside that group
+func (h *c06H) largeHistory(n, epochs int) ([]c06Step, error) {
+	r := h.rng
+	steps := []c06Step{}
+	h.operators = append([]sdk.AccAddress{}, h.env.Operators...)
+	if !h.beginNext(5 * time.Second) {
+		return steps, nil
+	}
+	regOps := []string{}
+	for idx := 0; len(h.operators) < n; idx++ {
+		// equal stakes through the ledger: the first epoch end already has a tie of all the new operators at 150
+		op, err := h.registerExtra(idx, 150)
+		if err != nil {
+			return nil, err
+		}
+		h.operators = append(h.operators, op)
+		regOps = append(regOps, fmt.Sprintf("register+deposit+selfdelegate+optin(big%d,150)", idx))
+	}
+	if r.Intn(2) == 0 {
+		regOps = append(regOps, "setmax="+h.opSetMax(uint32(7+r.Intn(n-8))))
+	}
+	steps = append(steps, h.step(regOps))
+	dec := func(v int64) sdkmath.LegacyDec { return sdkmath.LegacyNewDec(v) }
+	for e := 0; e < epochs; e++ {
+		u := h.untilEpochEnd()
+		if u < 0 {
+			u = 0
+		}
+		if !h.beginNext(u + time.Duration(1+r.Intn(600))*time.Second) {
+			return steps, nil
+		}
+		ops := []string{}
+		for k := r.Intn(3); k > 0; k-- {
+			ops = append(ops, h.randOp(false))
+		}
+		if h.app.StakingKeeper.IsEpochEnd(h.ctx) && (e > 0 || r.Intn(2) == 0) {
+			// tie group of m operators at value v; the others strictly above or strictly below
+			m := 13 + r.Intn(n-12)
+			v := []int64{1, 3, 100, 150, 200}[r.Intn(5)]
+			perm := r.Perm(n)
+			above := 0
+			for pos, i := range perm {
+				val := v
+				if pos >= m {
+					if r.Intn(2) == 0 {
+						val = v + 1 + int64(r.Intn(50))
+						above++
+					} else {
+						val = v - 1 - int64(r.Intn(3))
+						if val < 0 {
+							val = 0
+						}
+					}
+				}
+				res := h.opSetUSD(i, dec(val), dec(val), dec(val))
+				h.w.Count("op/setusd/" + res)
+			}
+			maxv := above + 1 + r.Intn(m-1) // the cut falls strictly inside the tie group
+			ops = append(ops, fmt.Sprintf("tie(m=%d,v=%d,above=%d)", m, v, above), fmt.Sprintf("setmax(%d)=%s", maxv, h.opSetMax(uint32(maxv))))
+			h.w.Count("large/tie-group-straddles-cut")
+		} else if h.app.StakingKeeper.IsEpochEnd(h.ctx) {
+			// the stakes of the ledger as the operator hook priced them (all new operators tied at 150)
+			maxv := 7 + r.Intn(n-8)
+			ops = append(ops, fmt.Sprintf("setmax(%d)=%s", maxv, h.opSetMax(uint32(maxv))))
+		}
+		steps = append(steps, h.step(ops))
+	}
+	return steps, nil
+}
+
 func runC06(a *Args) error {
 	rng := rand.New(rand.NewSource(a.Seed))
 	env := NewEnv(EnvCfg{
@@ -794,7 +910,7 @@ func runC06(a *Args) error {
 		},
 		ExtraAccs: 2,
 	})
-	h := &c06H{env: env, app: env.App, rng: rng, w: NewCaseWriter(a.Out), epochID: "hour"}
+	h := &c06H{env: env, app: env.App, rng: rng, w: NewCaseWriter(a.Out), epochID: "hour", operators: env.Operators}
 	defer h.w.Close()
 	h.chainID = avstypes.ChainIDWithoutRevision(env.ChainID)
 	h.avsAddr = strings.ToLower(avstypes.GenerateAVSAddr(h.chainID))
@@ -867,7 +983,25 @@ func runC06(a *Args) error {
 		steps = append(steps, h.step(nil))
 		return steps
 	})
-	nCached := a.N - nChain - nDirected
+	// large sets: a few per run (more in longer runs)
+	nLarge := 6 + a.N/40
+	for i := 0; i < nLarge; i++ {
+		cc, _ := base.CacheContext()
+		h.real = false
+		h.ctx = cc
+		h.height = env.Header.Height
+		h.now = env.Header.Time
+		h.nonce = 9000
+		h.dead = false
+		steps, err := h.largeHistory(13+rng.Intn(8), 2+rng.Intn(2))
+		h.operators = env.Operators
+		if err != nil {
+			return fmt.Errorf("large-set family: %w", err)
+		}
+		h.emit("cached", steps, []string{"large-set"})
+		h.w.Count("case/large-set")
+	}
+	nCached := a.N - nChain - nDirected - nLarge
 	for i := 0; i < nCached; i++ {
 		cc, _ := base.CacheContext()
 		h.real = false
@@ -915,7 +1049,7 @@ func runC06X(a *Args) error {
 			gs[dogfoodtypes.ModuleName] = app.AppCodec().MustMarshalJSON(&dg)
 		},
 	})
-	h := &c06H{env: env, app: env.App, rng: rng, w: NewCaseWriter(a.Out), epochID: "minute"}
+	h := &c06H{env: env, app: env.App, rng: rng, w: NewCaseWriter(a.Out), epochID: "minute", operators: env.Operators}
 	defer h.w.Close()
 	h.chainID = avstypes.ChainIDWithoutRevision(env.ChainID)
 	_, h.avsAddr = env.App.AVSManagerKeeper.IsAVSByChainID(env.Ctx, h.chainID)
